@@ -247,6 +247,11 @@ func observe(r metadata.Reader, comp *interner, probes []int64, readData bool, p
 				if err != nil {
 					return err
 				}
+				if chSize == 0 && len(b) == 0 {
+					// memory hands empty files of the stream at blob offset 0 to the callback, db has no chunk for
+					// them: nothing is cached either way
+					return nil
+				}
 				v.Pre = append(v.Pre, PreCall{pathOf[nid], chOff, chSize, dg, fmt.Sprintf("%x/%d", sha256.Sum256(b), len(b))})
 				return nil
 			})
